@@ -45,7 +45,7 @@ def twin_runs(tier, seed, q=160, t=2000, tn=12):
 
 WORLD_RULE = ("world histories on the real contracts in cw-multi-test: random deployment (native / cw20 collateral, 6 / 9 decimals, mock / real price feed, "
               "1-3 vAMMs at price 10 / 1 / 0.1, fee ratios 0-10%, fluctuation limit 0-20%, caps, margin ratios, liquidation fee 0-100%, partial ratio "
-              "0-100%, unregistered / closed vAMMs, small or empty insurance fund, small balances and allowances), then 10-60 state-dependent transactions "
+              "0-100%, unregistered / closed vAMMs, small or empty insurance fund, small balances and allowances; in every other deployment three accounts carry 44/45-character addresses agreeing in their first 34 characters, one being another plus one character), then 10-60 state-dependent transactions "
               "with same-block bursts, single blocks and gaps up to 25 h: open / increase / reduce / reverse, close (whole and partial), deposit / "
               "withdraw (incl. free collateral ±1), liquidation campaigns (price pushed against a leveraged position, oracle realigned, TWAP waited out), "
               "pay-funding before / at / after the funding time, oracle moves around the 10% spread limit, every admin entry point of every contract by "
